@@ -39,7 +39,7 @@ RULE = ("case = one load under one fault: a fault sequence (enumerated), a kill 
         " Round-4 classes: the HTTP letter of the fault alphabet stands for a transient status drawn from 503, 429, 408, 500, 502, 504; the remote loader's own defaults (gzip, unpack_dataset_columns) are exercised by omission."
         " Round-5 classes: gzip payloads of 1..3 members."
         " Round-6 classes: the permission bits of the cache entry (group / others may read as far as the umask allows).")
-REQUIRED_MONITORS = ["c19:entry_mode", "c19:fault_sequence", "c19:kill_line", "c19:kill_call", "c19:concurrent", "c19:flags", "c19:pairs",
+REQUIRED_MONITORS = ["c19:suspend", "c19:entry_mode", "c19:fault_sequence", "c19:kill_line", "c19:kill_call", "c19:concurrent", "c19:flags", "c19:pairs",
                      "c19:followup_after_kill"]      # c19:kill_syscall / c19:syscall_error need strace (skipped + noted if absent)
 ASSUMPTIONS = ["process crash only (no fsync / power loss claims)", "the fake opener stands for the network"]
 TIMEOUT = {"quick": 900, "thorough": 7200}
@@ -105,6 +105,12 @@ def plan(tier, seed):
     rounds = 16 if tier == "quick" else 640
     specs += [{"kind": "concurrent", "start": p * (rounds // NSH), "count": rounds // NSH, "big": tier != "quick"}
               for p in range(NSH)]
+    # a refreshing loader suspended at every (quick: every 5th) line event while a second loader runs to completion
+    for gz in ((False,) if tier == "quick" else (False, True)):
+        nparts = 6 if tier == "quick" else 12
+        # quick: every line of the library's own file; thorough: every line of the library, tempfile, shutil, urllib
+        specs += [{"kind": "suspend", "gz": gz, "part": p, "parts": nparts, "stride": 1, "library_lines_only": tier == "quick"}
+                  for p in range(nparts)]
     specs.append({"kind": "flags"})
     npairs = 300 if tier == "quick" else None
     specs += [{"kind": "pairs", "part": p, "parts": 8, "sample": npairs} for p in range(8)]
@@ -476,6 +482,91 @@ def judge_after_kill(ctx, cid, cfg, url, rows, home, scratch, killed, out, ti):
 
 
 # ------------------------------------------------------------------------------------------------ (c) concurrency
+def run_suspend(ctx, spec):
+    """One loader REFRESHES a cached dataset (download_even_if_available) and is suspended at every k-th Python line of
+    its load; while it stands still, a second, complete loader asks for the same dataset without refreshing - once with
+    downloading forbidden and the network down, once with default flags.  The dataset was cached before and is cached
+    after: the second loader is served from the cache at EVERY suspension point (no 'Data not found', no request), and
+    the refreshing loader finishes normally afterwards.  Deterministic counterpart of the concurrent rounds."""
+    gz = bool(spec.get("gz", False))
+    rows = 400
+    url = URL % ("suspend-%s" % ("gz" if gz else "csv"))
+    base = {"op": "remote", "url": url, "dataset_filename": "entry", "folder": "fold", "gz": gz, "rows": rows,
+            "n_retries": 0, "delay": 0.1}
+    scratch = _ds.scratch_root()
+    try:
+        home = os.path.join(scratch, "home")
+        os.mkdir(home)
+        rc, out, err = _ds.run_child({"home": home, "steps": [{"op": "net", "default": "good"}, dict(base)]}, scratch)
+        if out is None or out["results"][1].get("outcome") != "ok":
+            raise RuntimeError("warm-up failed rc=%s %s" % (rc, err))
+        refresh = dict(base, flags={"download_if_missing": True, "download_even_if_available": True})
+        steps_a = [{"op": "net", "default": "good"}, refresh]
+        lib_only = bool(spec.get("library_lines_only"))
+        rc, out, err = _ds.run_child({"home": home, "steps": steps_a,
+                                      "kill": {"events": "line", "at": None, "step": 1,
+                                               "pause": {"ready": os.path.join(scratch, "never"), "resume": os.path.join(scratch, "never"),
+                                                         "only_library_lines": lib_only}}}, scratch)
+        if out is None:
+            raise RuntimeError("dry run failed rc=%s %s" % (rc, err))
+        n_events = out["results"][1]["events_counted"]
+        ctx.setadd("event_counts", "suspend %s events=%d" % ("gz" if gz else "csv", n_events))
+        want = _ds.expected_desc(url, rows)
+        points = [k for i, k in enumerate(range(1, n_events + 1, spec.get("stride", 1))) if i % spec["parts"] == spec["part"]]
+        for k in points:
+            cid = {"kind": "suspend", "gz": gz, "at": k, "seed": ctx.seed}
+            ready, resume = os.path.join(scratch, "ready-%d" % k), os.path.join(scratch, "resume-%d" % k)
+            spec_a = {"home": home, "steps": steps_a,
+                      "kill": {"events": "line", "at": k, "step": 1,
+                               "pause": {"ready": ready, "resume": resume, "timeout": 90, "only_library_lines": lib_only}}}
+            pa = subprocess.Popen(_ds.child_cmd(spec_a, scratch), env=_ds.child_env(), cwd=HOME, stdout=subprocess.PIPE,
+                                  stderr=subprocess.PIPE, text=True)
+            t0 = time.monotonic()
+            while not os.path.exists(ready) and pa.poll() is None and time.monotonic() - t0 < 60:
+                time.sleep(0.002)
+            ctx.judged()
+            ctx.monitor("c19:suspend")
+            bad = None
+            if os.path.exists(ready):
+                strict = dict(base, flags={"download_if_missing": False})
+                rc, ob, err = _ds.run_child({"home": home, "steps": [{"op": "net", "default": "urlerror"}, strict,
+                                                                     {"op": "net", "default": "good"}, dict(base)]}, scratch)
+                if ob is None:
+                    bad = ("second_loader_crashed", {"rc": rc, "stderr": (err or "")[-600:]})
+                else:
+                    r1, r2 = ob["results"][1], ob["results"][3]
+                    if r1.get("outcome") != "ok" or not _ds.same_data(r1["data"], want):
+                        bad = ("cached_dataset_not_available_while_another_loader_refreshes_it",
+                               {"outcome": r1.get("outcome"), "exception": r1.get("exc_type"), "message": r1.get("exc_msg")})
+                    elif r2.get("outcome") != "ok" or not _ds.same_data(r2["data"], want) or r2["requests"]:
+                        bad = ("cached_dataset_requested_again_while_another_loader_refreshes_it",
+                               {"outcome": r2.get("outcome"), "exception": r2.get("exc_type"), "requests": r2.get("requests")})
+                ctx.nontriv("suspend", gz, k)
+            open(resume, "w").close()
+            try:
+                so, se = pa.communicate(timeout=120)
+            except subprocess.TimeoutExpired:
+                pa.kill()
+                raise RuntimeError("suspended loader exceeded the watchdog (inconclusive)")
+            oa = _ds.parse_child(so)
+            if bad is None and (oa is None or oa["results"][1].get("outcome") != "ok"
+                                or not _ds.same_data(oa["results"][1]["data"], want)):
+                bad = ("refreshing_loader_failed_after_being_suspended",
+                       {"rc": pa.returncode, "result": (oa or {}).get("results", [None, None])[1] if oa else None,
+                        "stderr": (se or "")[-600:]})
+            if bad is None and _ds.cache_entry_ok(os.path.join(home, "fold", "entry"), url, rows) != "complete":
+                bad = ("final_cache_entry_not_complete", {})
+            for f_ in (ready, resume):
+                if os.path.exists(f_):
+                    os.remove(f_)
+            if bad is not None:
+                ctx.violation(bad[0], cid, dict(bad[1], suspended_at_line_event=k, of=n_events))
+                return
+        ctx.sample({"suspend": {"gz": gz, "line_events_in_a_refreshing_load": n_events, "points_in_this_shard": len(points)}})
+    finally:
+        shutil.rmtree(scratch, ignore_errors=True)
+
+
 def run_concurrent(ctx, spec):
     for idx in range(spec["start"], spec["start"] + spec["count"]):
         concurrent_round(ctx, idx, spec.get("big", False))
@@ -750,6 +841,8 @@ def run(ctx, spec):
         run_kill(ctx, spec)
     elif k == "concurrent":
         run_concurrent(ctx, spec)
+    elif k == "suspend":
+        run_suspend(ctx, spec)
     elif k == "flags":
         run_flags(ctx)
     else:
@@ -794,6 +887,9 @@ def replay(ctx, case):
             judge_after_kill(ctx, case, cfg, url, rows, home, scratch, out is None, out, ti)
         finally:
             shutil.rmtree(scratch, ignore_errors=True)
+    elif k == "suspend":
+        run_suspend(ctx, {"gz": case.get("gz", False), "part": 0, "parts": 1, "stride": 1,
+                          "library_lines_only": ctx.tier != "thorough"})
     elif k == "concurrent":
         concurrent_round(ctx, case["idx"], case.get("rows", 0) > 20000)
     elif k == "flags":
